@@ -20,6 +20,7 @@ LEVEL = 'fault_enumeration'
 SHARDS = {'quick': 8, 'thorough': 16}
 TIMEOUT = {'quick': 1000, 'thorough': 3500}
 N_GROUPS = {'quick': 32, 'thorough': 640}
+N_BIG = {'quick': 9, 'thorough': 150}           # scale regime: 70-260 executions / 700-1500 timesteps / 40-70 repetitions
 GROUP = 8
 RULE = ('cases: seeded batch_run calls on a self-identifying fixture model: grids of 1-4 parameters (1-12 combinations; lists, tuples, ranges, '
         'scalar and string parameters, dict or ParameterList input - the latter also after an earlier build and a parameter removal), repetitions 1-3, max_timesteps below / at / above the runs\' own '
@@ -35,7 +36,7 @@ ASSUMPTIONS = ['a batch_run call that hangs in Pool.terminate() after a failed e
                'process and approximates it for several', 'a hang outside that mechanism is reported as inconclusive by the watchdog, not as a violation']
 FLOORS = {'quick': {'batches': 100, 'executions_checked': 310, 'records_checked': 1200, 'fault_batches': 30, 'faults_propagated': 30,
                     'multi_process_batches': 50, 'reordered_batches': 5, 'serial_order_checks': 10, 'limit_below_completion': 15,
-                    'limit_above_completion': 15, 'multi_collector_batches': 20, 'no_collector_batches': 8, 'fault_exc_InjectedKeyError': 10, 'collectors_at_completer_priority': 40, 'parameter_list_with_history': 15, 'procs_1': 20, 'procs_2_4': 20, 'procs_5_8': 8, 'procs_9_16': 8},
+                    'limit_above_completion': 15, 'multi_collector_batches': 20, 'no_collector_batches': 8, 'big_batches_many_runs': 2, 'big_batches_long_runs': 2, 'big_batches_many_repetitions': 2, 'fault_exc_InjectedKeyError': 10, 'collectors_at_completer_priority': 40, 'parameter_list_with_history': 15, 'procs_1': 20, 'procs_2_4': 20, 'procs_5_8': 8, 'procs_9_16': 8},
           'thorough': {'batches': 3000, 'fault_batches': 1000, 'reordered_batches': 200, 'procs_9_16': 200}}
 EXHAUSTIVE = {}
 
@@ -328,18 +329,61 @@ def case_group(ctx, case):
                     'fault': specs[-1].get('fault')})
 
 
+
+def case_big(ctx, case):
+    """Scale regime: batches of 70-260 executions on 2-4 processes (with and without a failing execution, incl. StopIteration), and runs of
+    hundreds to a thousand timesteps with step limits that are not round numbers."""
+    rng = ctx.rng('big', case['i'])
+    specs = []
+    style = case['i'] % 3
+    if style == 0:      # many executions
+        k = rng.choice([70, 96, 130, 260])
+        procs = rng.choice([2, 2, 3, 4])
+        base = dict(grid={'alpha': {'__range__': [0, k]}}, repetitions=1, stop=2, max_timesteps=None, collector_ids=['c_main'], collectors='c_main',
+                    processes=procs, use_parameter_list=False, explicit_reps=False, pl_history=False, collector_priority=None)
+        specs.append(dict(base, id=f'B{case["i"]}ok', delays=[0]))
+        for ordn in sorted(rng.sample(range(k), 3)):
+            f = dict(base, id=f'B{case["i"]}f{ordn}', delays=[0])
+            f['fault'] = {'kind': 'step', 'ordinal': ordn, 'tag': f'bigfault-{ordn}', 't': 1,
+                          'exc': rng.choice(['InjectedStop', 'InjectedStop', 'InjectedFault', 'InjectedKeyError'])}
+            specs.append(f)
+        ctx.count('big_batches_many_runs')
+    elif style == 1:    # long runs, awkward limits
+        stop = rng.choice([700, 1000, 1500])
+        for lim in (rng.choice([257, 300, 513, 699]), stop - 1, None):
+            specs.append(dict(grid={'alpha': [1, 2]}, repetitions=1, stop=stop, max_timesteps=lim, collector_ids=['c_main'], collectors='c_main',
+                              processes=rng.choice([1, 2]), use_parameter_list=False, explicit_reps=False, pl_history=False,
+                              collector_priority=None, id=f'B{case["i"]}L{lim}', delays=[0]))
+        ctx.count('big_batches_long_runs')
+    else:               # many repetitions
+        reps = rng.choice([40, 70])
+        specs.append(dict(grid={'alpha': [1, 2], 'beta': 'x'}, repetitions=reps, stop=1, max_timesteps=None, collector_ids=['c_main', 'c_aux'],
+                          collectors=['c_main', 'c_aux'], processes=rng.choice([1, 3]), use_parameter_list=True, explicit_reps=True,
+                          pl_history=False, collector_priority=None, id=f'B{case["i"]}R{reps}', delays=[0]))
+        ctx.count('big_batches_many_repetitions')
+    outs, proc = run_child(ctx, specs)
+    for s_ in specs:
+        if s_['id'] not in outs:
+            raise CaseViolation('a large batch crashed its interpreter / produced no result', spec={k: v for k, v in s_.items() if k != 'delays'},
+                                stderr=proc.stderr[-1500:])
+        check_batch(ctx, s_, outs[s_['id']])
+
+
 def encode(spec):
     return spec
 
 
 def run_case(ctx, case):
-    case_group(ctx, case)
+    (case_big if case.get('kind') == 'big' else case_group)(ctx, case)
 
 
 def run(ctx):
     for i in range(N_GROUPS[ctx.tier]):
         if ctx.mine(i) and not ctx.full():
             ctx.run_case({'kind': 'group', 'i': i}, run_case)
+    for i in range(N_BIG[ctx.tier]):
+        if ctx.mine(i) and not ctx.full():
+            ctx.run_case({'kind': 'big', 'i': i}, run_case)
 
 
 def replay(ctx, case):
